@@ -273,11 +273,11 @@ Proof.
   intros ->. apply Hk. left. reflexivity.
 Qed.
 
-(* a goal [f; Combined gs xs]: after GoalContext::accept_route_state on a stale tour the flag is clear and the field of f,
-   written a moment ago, is gone *)
+(* BEFORE /repo 05d96ed (nested = true), a goal [f; Combined gs xs]: after GoalContext::accept_route_state on a stale tour the
+   flag is clear and the field of f, written a moment ago, is gone *)
 Theorem nested_clear_wipes : forall (f : feature) gs xs r,
   rc_stale r = true -> ~ In (f_key f) (map f_key gs) -> ~ In (f_key f) (map xf_key xs) ->
-  let r' := goal_accept_route_state tour job value [EOne f; ECombined gs xs] r in
+  let r' := goal_accept_route_state tour job value true [EOne f; ECombined gs xs] r in
   rc_stale r' = false /\ rc_tour r' = rc_tour r /\ rc_state r' (f_key f) = None.
 Proof.
   intros f gs xs r Hst Hg Hx r'. subst r'. unfold goal_accept_route_state. rewrite Hst. cbn [fold_left entry_route].
@@ -296,16 +296,101 @@ Proof.
   - rewrite fold_prevent_other; [|exact Hx]. rewrite fold_refresh_other; [|exact Hg]. reflexivity.
 Qed.
 
-(* a goal without a combined state is the protocol of Model/Cache.v *)
-Theorem goal_accept_route_state_flat : forall (gs : list feature) r,
-  goal_accept_route_state tour job value (map EOne gs) r = accept_route_state tour job value gs r.
+(* a goal without a combined state is the protocol of Model/Cache.v (before and after the repair) *)
+Theorem goal_accept_route_state_flat : forall nested (gs : list feature) r,
+  goal_accept_route_state tour job value nested (map EOne gs) r = accept_route_state tour job value gs r.
 Proof.
-  intros gs r. unfold goal_accept_route_state, accept_route_state. destruct (rc_stale r); [|reflexivity].
+  intros nested gs r. unfold goal_accept_route_state, accept_route_state. destruct (rc_stale r); [|reflexivity].
   unfold unset. f_equal.
   - f_equal. generalize (mkRctx (rc_tour r) (fun _ : nat => @None value) true).
     induction gs as [|g gs IH]; intros r0; [reflexivity|]. cbn [map fold_left entry_route]. apply IH.
   - f_equal. generalize (mkRctx (rc_tour r) (fun _ : nat => @None value) true).
     induction gs as [|g gs IH]; intros r0; [reflexivity|]. cbn [map fold_left entry_route]. apply IH.
+Qed.
+
+(* ---------------- the repaired protocol (nested = false): one clear / unset bracket around ALL handlers ---------------- *)
+(* the handlers of a goal as one sequence of steps: refresh of a per-tour feature, or prevent of a cross-tour one *)
+Definition step_key (s : feature + xfeature) : nat := match s with inl f => f_key f | inr xf => xf_key xf end.
+Definition step (s : feature + xfeature) (r : rctx) : rctx :=
+  match s with
+  | inl f => if f_on_route f then refresh tour job value f r else r
+  | inr xf => x_prevent tour value xf r
+  end.
+Definition steps (es : list (entry tour job value)) : list (feature + xfeature) :=
+  flat_map (fun e => match e with EOne f => [inl f] | ECombined gs xs => map inl gs ++ map inr xs end) es.
+
+Lemma fold_steps_app : forall l1 l2 r,
+  fold_left (fun acc s => step s acc) (l1 ++ l2) r = fold_left (fun acc s => step s acc) l2 (fold_left (fun acc s => step s acc) l1 r).
+Proof. intros. apply fold_left_app. Qed.
+
+Lemma combined_route_steps : forall gs xs r,
+  combined_route tour job value gs xs r = fold_left (fun acc s => step s acc) (map inl gs ++ map inr xs) r.
+Proof.
+  intros gs xs r. unfold combined_route. rewrite fold_steps_app.
+  assert (H1 : forall r0, fold_left (fun acc s => step s acc) (map inl gs) r0 =
+                          fold_left (fun acc f => if f_on_route f then refresh tour job value f acc else acc) gs r0).
+  { induction gs as [|g gs IH]; intros r0; [reflexivity|]. cbn [map fold_left step]. apply IH. }
+  assert (H2 : forall r0, fold_left (fun acc s => step s acc) (map inr xs) r0 =
+                          fold_left (fun acc xf => x_prevent tour value xf acc) xs r0).
+  { induction xs as [|x xs IH]; intros r0; [reflexivity|]. cbn [map fold_left step]. apply IH. }
+  rewrite H1, H2. reflexivity.
+Qed.
+
+Lemma goal_fold_steps : forall es r,
+  fold_left (fun acc e => entry_route tour job value false e acc) es r = fold_left (fun acc s => step s acc) (steps es) r.
+Proof.
+  unfold steps. induction es as [|e es IH]; intros r; [reflexivity|]. cbn [fold_left flat_map]. rewrite fold_steps_app, IH. f_equal.
+  destruct e as [f|gs xs]; cbn [entry_route]; [reflexivity|apply combined_route_steps].
+Qed.
+
+Lemma steps_keys : forall es, map step_key (steps es) = entry_keys tour job value es.
+Proof.
+  unfold steps, entry_keys. induction es as [|e es IH]; [reflexivity|]. cbn [flat_map]. rewrite map_app, IH. f_equal.
+  destruct e as [f|gs xs]; [reflexivity|]. rewrite map_app, !map_map. reflexivity.
+Qed.
+
+Lemma in_flat_steps : forall es f, In f (flat_fs tour job value es) -> In (inl f) (steps es).
+Proof.
+  intros es f H. unfold flat_fs in H. apply in_flat_map in H as (e & He & Hf). unfold steps. apply in_flat_map.
+  exists e. split; [exact He|]. destruct e as [g|gs xs].
+  - destruct Hf as [->|[]]. left. reflexivity.
+  - apply in_or_app. left. apply in_map. exact Hf.
+Qed.
+
+Lemma step_tour : forall s r, rc_tour (step s r) = rc_tour r.
+Proof. intros [f|xf] r; cbn [step]; [destruct (f_on_route f); reflexivity|reflexivity]. Qed.
+Lemma step_keeps : forall (f : feature) s r, f_key f <> step_key s -> field_ok tour job value f r -> field_ok tour job value f (step s r).
+Proof.
+  intros f [g|xf] r Hk H; cbn [step step_key] in *.
+  - destruct (f_on_route g); [apply refresh_other; assumption|exact H].
+  - unfold field_ok, x_prevent. rewrite x_write_tour, x_write_other; assumption.
+Qed.
+Lemma steps_keep : forall (f : feature) l r, (forall s, In s l -> f_key f <> step_key s) -> field_ok tour job value f r ->
+  field_ok tour job value f (fold_left (fun acc s => step s acc) l r).
+Proof.
+  intros f l. induction l as [|s l IH]; intros r Hk H; [exact H|]. cbn [fold_left].
+  apply IH; [intros; apply Hk; right; assumption|]. apply step_keeps; [apply Hk; left; reflexivity|exact H].
+Qed.
+Lemma steps_field : forall (f : feature) l r, NoDup (map step_key l) -> In (inl f) l -> f_on_route f = true ->
+  field_ok tour job value f (fold_left (fun acc s => step s acc) l r).
+Proof.
+  intros f l. induction l as [|s l IH]; intros r Hnd Hin Hon; [destruct Hin|].
+  cbn [map] in Hnd. inversion Hnd as [|? ? Hni Hnd']; subst. cbn [fold_left]. destruct Hin as [->|Hin].
+  - apply steps_keep.
+    + intros s Hs Heq. apply Hni. cbn [step_key]. rewrite Heq. apply in_map. exact Hs.
+    + cbn [step]. rewrite Hon. apply refresh_own.
+  - apply IH; assumption.
+Qed.
+
+(* GoalContext::accept_route_state as repaired keeps the invariant for EVERY per-tour feature of the goal, inside a combined
+   state or not *)
+Theorem cache_ok_goal_accept_route_state : forall es r, NoDup (entry_keys tour job value es) ->
+  CacheOK tour job value (flat_fs tour job value es) r ->
+  CacheOK tour job value (flat_fs tour job value es) (goal_accept_route_state tour job value false es r).
+Proof.
+  intros es r Hnd Hok. unfold goal_accept_route_state. destruct (rc_stale r) eqn:Es; [|exact Hok].
+  intros _ f Hf Hon. unfold field_ok. cbn [unset rc_state rc_tour]. rewrite goal_fold_steps.
+  apply steps_field; [rewrite steps_keys; exact Hnd|apply in_flat_steps; exact Hf|exact Hon].
 Qed.
 End PX.
 
@@ -487,7 +572,7 @@ Definition w_step (xfs : list (xfeature (list sact) xval)) : option (list srctx)
   | _ => None
   end.
 
-(* with the second pass restricted to stale tours (seeded C05-5, mutant C05-7) the untouched tour keeps the outdated value *)
+(* with the second pass restricted to stale tours (seeded C05-5) the untouched tour keeps the outdated value *)
 Theorem shared_stale_only_refuted :
   exists r1 r2, w_step shared_stale_only = Some [r1; r2] /\ rc_stale r2 = false /\ rc_tour r2 = wt2 /\
     rc_state r2 K_SHARED = Some (XAvail [(0%nat, None); (2%nat, Some 1)]) /\
@@ -502,13 +587,26 @@ Theorem shared_step_shipped :
     rc_state r2 K_INTERVALS = Some (XIntervals [(0%nat, 1%nat); (2%nat, 4%nat)]).
 Proof. eexists. eexists. split; [vm_compute; reflexivity|]. vm_compute. auto 10. Qed.
 
-(* finding C05-F2: GoalContext::accept_route_state on a goal [transport-like feature; CombinedFeatureState [reload intervals;
-   shared resource]]: the tour is flagged fresh, the field of the first feature is gone, its recomputation is not *)
+(* finding C05-F2 (the code BEFORE /repo 05d96ed): GoalContext::accept_route_state on a goal [transport-like feature;
+   CombinedFeatureState [reload intervals; shared resource]]: the tour is flagged fresh, the field of the first feature is gone,
+   its recomputation is not *)
 Theorem nested_clear_refuted :
-  let r' := goal_accept_route_state _ _ _ shared_goal (mkRctx wt1 (fun _ => None) true) in
+  let r' := goal_accept_route_state _ _ _ true shared_goal (mkRctx wt1 (fun _ => None) true) in
   rc_stale r' = false /\ rc_state r' K_TOTAL = None /\ f_compute total_feature (rc_tour r') = Some (XTotal 6) /\
   ~ CacheOK _ _ _ [total_feature; intervals_feature] r'.
 Proof.
   cbn zeta. split; [reflexivity|]. split; [reflexivity|]. split; [reflexivity|].
   intros H. specialize (H eq_refl total_feature (or_introl eq_refl) eq_refl). unfold field_ok in H. vm_compute in H. discriminate.
+Qed.
+
+(* the same call on the code as repaired: every field is there *)
+Theorem nested_clear_repaired :
+  let r' := goal_accept_route_state _ _ _ false shared_goal (mkRctx wt1 (fun _ => None) true) in
+  rc_stale r' = false /\ rc_state r' K_TOTAL = Some (XTotal 6) /\
+  rc_state r' K_INTERVALS = Some (XIntervals [(0%nat, 1%nat); (2%nat, 5%nat)]) /\
+  CacheOK _ _ _ (flat_fs _ _ _ shared_goal) r'.
+Proof.
+  cbn zeta. split; [reflexivity|]. split; [reflexivity|]. split; [vm_compute; reflexivity|].
+  apply cache_ok_goal_accept_route_state; [cbn; repeat constructor; cbn; intuition discriminate|].
+  intros H. discriminate.
 Qed.
